@@ -241,8 +241,8 @@ Proof.
   apply safe_bind. eapply safe_of_run; [exact E1|].
   apply safe_bind. eapply safe_get_query; [exact (inv_heap _ _ I1)|exact Hq1|].
   apply safe_bind. simpl.
-  eapply safe_mono; [apply safe_both; [apply (sp_invoke _ _ (S1 f) (q_cb q) r s1 I1 O1 Hg1)
-                                      |apply (tp_invoke _ IH (q_cb q) r s1 RC RF I1 O1 Hg1 T1)]|].
+  eapply safe_mono; [apply safe_both; [apply (sp_invoke _ _ (S1 f) (q_cb q) _ s1 I1 O1 Hg1)
+                                      |apply (tp_invoke _ IH (q_cb q) _ s1 RC RF I1 O1 Hg1 T1)]|].
   intros [] s2 [[I2 F2] T2].
   pose proof (fr_cell _ _ _ _ F2 _ _ Hq1 Hr1 (opaque_not_query _ _ _ _ O1 Hq1)) as [Hq2 Hr2].
   unfold release_query. eapply safe_free; [exact (inv_heap _ _ I2)|exact Hq2|].
@@ -449,6 +449,21 @@ Proof.
   intros E. unfold held. f_equal. unfold qheld. change (linked (set_lists ls s)) with (concat ls). rewrite E. reflexivity.
 Qed.
 
+Lemma mark_cancelled_tok l : forall s RC RF, Inv s -> incl l (linked s) -> TokInv s RC RF ->
+  safe (mark_cancelled l) s (fun _ s' => TokInv s' RC RF).
+Proof.
+  induction l as [|qo r IHr]; intros s RC RF I Hl T; simpl.
+  - apply safe_ret. exact T.
+  - assert (Hq0 : In qo (linked s)) by (apply Hl; left; auto).
+    destruct (inv_query _ _ I _ Hq0) as [q Hq].
+    apply safe_bind. apply safe_bind. eapply safe_get_query; [exact (inv_heap _ _ I)|exact Hq|].
+    eapply safe_store; [exact (inv_heap _ _ I)|exact Hq|].
+    destruct (store_query_misc_ok None s qo q (set_q_cancelled true q) I Hq eq_refl eq_refl eq_refl) as [I1 [F1 [_ [Ell1 _]]]].
+    apply (IHr _ RC RF I1).
+    + intros y Hy. rewrite Ell1. apply Hl. right. exact Hy.
+    + apply (tok_store_query None s qo q); auto.
+Qed.
+
 Lemma cancel_tstep f : Specs2 f -> forall s RC RF, Inv s -> TokInv s RC RF -> safe (cancel cf (S f)) s (tpost RC RF).
 Proof.
   intros IH s RC RF I T. rewrite cancel_unfold. apply safe_bind. apply safe_get.
@@ -462,9 +477,14 @@ Proof.
     destruct (lists_same_linked None s ([] :: (q0 :: l0) :: rest) Ec I) as [I1 [F1 _]].
     assert (T1 : TokInv (set_lists ([] :: (q0 :: l0) :: rest) s) RC RF).
     { apply (tokinv_same s); [reflexivity|reflexivity|apply held_set_lists; exact Ec|exact T]. }
-    rewrite (fx_unlink_true cf Hfix).
+    rewrite (fx_unlink_true cf Hfix), (fx_cancelmark_true cf Hfix).
     apply safe_bind.
-    eapply safe_mono; [apply safe_both; [apply (sp_cancel_loop _ _ (S1 f) f _ I1)|apply (tp_cancel_loop _ IH f _ RC RF I1 T1)]|].
+    eapply safe_mono; [apply safe_both; [apply (mark_cancelled_ok (q0 :: l0) _ I1)|apply (mark_cancelled_tok (q0 :: l0) _ RC RF I1)]|]; auto.
+    { intros y Hy. unfold linked. simpl. destruct Hy as [->|Hy]; [left; auto|right; apply in_or_app; left; exact Hy]. }
+    { intros y Hy. unfold linked. simpl. destruct Hy as [->|Hy]; [left; auto|right; apply in_or_app; left; exact Hy]. }
+    intros [] sm [[Im _] Tm].
+    apply safe_bind.
+    eapply safe_mono; [apply safe_both; [apply (sp_cancel_loop _ _ (S1 f) f _ Im)|apply (tp_cancel_loop _ IH f _ RC RF Im Tm)]|].
     intros [] s2 [[I2 [F2 Hsh]] T2].
     apply safe_modify.
     set (ls2 := match st_lists s2 with a :: _ :: r => a :: r | x => x end).
@@ -664,7 +684,7 @@ Proof.
                                      match e0 with Some (TN _) => let! _ := pop in ret tt | _ => ret tt end
                                 else ret tt);;
                                (let! qo := alloc (CQuery {| q_qid := qid; q_cb := k; q_conn := None; q_try := 0;
-                                                           q_noretry := pr; q_tcp := false; q_err := ARES_SUCCESS |}) in
+                                                           q_noretry := pr; q_tcp := false; q_err := ARES_SUCCESS; q_cancelled := false |}) in
                                 link_all qo;;
                                 modify (fun s0 => set_byqid ((qid, qo) :: st_byqid s0) s0);;
                                 write_qid qd qid;;
@@ -692,7 +712,7 @@ Proof.
         intros [] s4 T4. apply safe_ret. exact T4.
       + assert (D : forall l4,
                   safe (let! qo := alloc (CQuery {| q_qid := qid; q_cb := k; q_conn := None; q_try := 0;
-                                                    q_noretry := pr; q_tcp := false; q_err := ARES_SUCCESS |}) in
+                                                    q_noretry := pr; q_tcp := false; q_err := ARES_SUCCESS; q_cancelled := false |}) in
                         link_all qo;;
                         modify (fun s0 => set_byqid ((qid, qo) :: st_byqid s0) s0);;
                         write_qid qd qid;;
@@ -704,7 +724,7 @@ Proof.
           assert (O4 : Own s4 (cobjs k)) by (apply (own_core _ _ _ E4); auto).
           assert (Hn4 : GivenOk s4 (kbot k)) by (apply (given_core _ _ _ E4); auto).
           assert (T4 : TokInv s4 (ctoks k ++ RC) RF) by (apply tokinv_set_tape; exact T).
-          set (q0 := {| q_qid := qid; q_cb := k; q_conn := None; q_try := 0; q_noretry := pr; q_tcp := false; q_err := ARES_SUCCESS |}).
+          set (q0 := {| q_qid := qid; q_cb := k; q_conn := None; q_try := 0; q_noretry := pr; q_tcp := false; q_err := ARES_SUCCESS; q_cancelled := false |}).
           destruct (new_query_ok s4 k qid q0 I4 O4 Hn4 Lk1 eq_refl eq_refl eq_refl) as [I5 [F5 [Hl5 [Hq5 _]]]].
           pose proof (tokinv_new_query s4 k qid q0 RC RF I4 O4 Hn4 Lk1 eq_refl eq_refl eq_refl T4) as T5.
           apply safe_bind. apply safe_alloc.
@@ -965,11 +985,12 @@ Proof.
     pose proof (hown_core _ _ _ _ E2 HO1) as HO2. pose proof HO2 as [Hc2 _].
     remember (h_nomem h1 || zeqb (r_status r) ARES_ENOMEM || zeqb ais ARES_ENOMEM) as nm eqn:Enm.
     apply safe_bind. eapply safe_get_host; [exact (inv_heap _ _ I2)|exact Hc2|]. rewrite <- Enm.
+    match goal with |- context [h_set_ai nodes v4 nm ?x h1] => remember x as nd eqn:End; clear End end.
     apply safe_bind. eapply safe_store; [exact (inv_heap _ _ I2)|exact Hc2|].
-    destruct (hown_store s2 o h1 (h_set_ai nodes v4 nm h1) I2 HO2 eq_refl Hz1) as [I3 [F3 HO3]].
-    assert (T3 : TokInv (store_st o (CHost (h_set_ai nodes v4 nm h1)) s2) (ctoks (h_cb h) ++ RC) RF).
+    destruct (hown_store s2 o h1 (h_set_ai nodes v4 nm nd h1) I2 HO2 eq_refl Hz1) as [I3 [F3 HO3]].
+    assert (T3 : TokInv (store_st o (CHost (h_set_ai nodes v4 nm nd h1)) s2) (ctoks (h_cb h) ++ RC) RF).
     { apply (tokinv_host_excl None s2 o h1); auto. }
-    set (h3 := h_set_ai nodes v4 nm h1) in *. set (s3 := store_st o (CHost h3) s2) in *.
+    set (h3 := h_set_ai nodes v4 nm nd h1) in *. set (s3 := store_st o (CHost h3) s2) in *.
     simpl negb. rewrite andb_false_r. apply safe_bind. apply safe_ret.
     assert (FinE : forall stx, safe (end_hquery cf f o stx) s3 (tpost RC RF)).
     { intros stx. apply (tp_end_hquery _ IH o stx s3 h3 RC RF I3 HO3). exact T3. }
@@ -1005,13 +1026,14 @@ Proof.
     destruct (shared_host _ _ _ Hs2) as [Hc2 _].
     remember (h_nomem h1 || zeqb (r_status r) ARES_ENOMEM || zeqb ais ARES_ENOMEM) as nm eqn:Enm.
     apply safe_bind. eapply safe_get_host; [exact (inv_heap _ _ I2)|exact Hc2|]. rewrite <- Enm.
+    match goal with |- context [h_set_ai nodes v4 nm ?x h1] => remember x as nd eqn:End; clear End end.
     apply safe_bind. eapply safe_store; [exact (inv_heap _ _ I2)|exact Hc2|].
-    destruct (store_host_shared_ok None s2 o h1 (h_set_ai nodes v4 nm h1) (dg None) I2 Hs2 eq_refl Hp1) as [I3 [F3 _]].
+    destruct (store_host_shared_ok None s2 o h1 (h_set_ai nodes v4 nm nd h1) (dg None) I2 Hs2 eq_refl Hp1) as [I3 [F3 _]].
     { simpl. lia. } { intros; reflexivity. }
     { simpl. pose proof (hi_cnt _ (inv_hosts _ _ I2) _ _ Hs2). lia. }
-    assert (T3 : TokInv (store_st o (CHost (h_set_ai nodes v4 nm h1)) s2) RC RF).
+    assert (T3 : TokInv (store_st o (CHost (h_set_ai nodes v4 nm nd h1)) s2) RC RF).
     { apply (tokinv_host_shared None s2 o h1); auto. }
-    set (s3 := store_st o (CHost (h_set_ai nodes v4 nm h1)) s2) in *.
+    set (s3 := store_st o (CHost (h_set_ai nodes v4 nm nd h1)) s2) in *.
     simpl negb.
     apply safe_bind.
     + match goal with |- context [if ?b then _ else ret tt] => destruct b end.
